@@ -90,7 +90,7 @@ def run_traces(V, pid, tier, seed, variants_of, **kw):
         for e in t["ev"]:
             kinds[e["t"]] = kinds.get(e["t"], 0) + 1
         for (l, clause) in v:
-            if not clause.startswith(pid + ":"):
+            if not _traces.belongs(clause, pid):
                 continue
             e = t["ev"][l - 1]
             V.violation(f"{pid}|trace|{e['t']}|{clause}|{t['meta']['backend']}",
@@ -106,6 +106,6 @@ def replay_trace(payload):
     common.use_repo()
     t = _rt.record_analysis(payload["spec"])
     vd, _ = _traces.validate("ResultTrace", "rtrace_replay", [t])
-    bad = [c for (_, c) in vd[0] if c.startswith(payload["property"] + ":")]
+    bad = [c for (_, c) in vd[0] if _traces.belongs(c, payload["property"])]
     print(bad)
     return 1 if bad else 0
